@@ -265,6 +265,11 @@ ReadLoop:
 			if fileKey != nil {
 				return nil, fmt.Errorf("received duplicated file-key stanza")
 			}
+			// An empty body would leave fileKey nil, which is also how "no file
+			// key yet" is represented: duplicates would then go unnoticed.
+			if len(s.Body) == 0 {
+				return nil, fmt.Errorf("malformed file-key stanza: empty file key")
+			}
 
 			fileKey = s.Body
 
